@@ -8,11 +8,18 @@ get_hash_algorithm, find_certificate, get_signature_names, get_certificates_v1),
 comparison operators come from the generated AgVerif.Gen.V1SigTables, so every theorem below is re-checked
 against what the source says now.
 
+The statement "certificate `c` verifies SignerInfo `si` against the .SF" is the INDEPENDENT specification
+AgVerif.Spec.V1Sig.Verifies (RFC 5652 §5.4/§11 + the v1 scheme; own digest table, own SET OF re-tagging, own
+API-24 rule; imports nothing), reached through `SpecVerifies` / `SpecSelects` (Proof/V1SigSpec.lean, which proves
+that the model's helpers — digest lookup over the generated table, `retag`, `contentTypeChecked`, `findCert` —
+equal the specification's).  The `_model` variants state the same against the model-side predicate `Verifies`.
+
 Every theorem quantifies over all cryptographic parameters `cr`, all inputs `inp` (any number of
 certificates, SignerInfos, attributes; any bytes).  Cryptographic assumptions appear only as hypotheses.
 -/
 import AgVerif.Proof.V1Sig
 import AgVerif.Proof.V1SigNames
+import AgVerif.Proof.V1SigSpec
 namespace AgVerif.C32
 open AgVerif.V1Sig AgVerif.Gen
 
@@ -45,12 +52,12 @@ theorem tables_as_specified :
 
 /-! ## soundness: what a reported certificate guarantees -/
 
-/-- **reported_cert_verifies.**  If get_certificate_der reports certificate `c`, then one of the SignerInfos it
+/-- (model-side form of reported_cert_verifies)  If get_certificate_der reports certificate `c`, then one of the SignerInfos it
     tried selects `c` by issuer and serial, and `c`'s key verifies that SignerInfo's signature: over the .SF
     bytes when there are no signed attributes; otherwise over the re-tagged signed attributes, which have
     no duplicate, carry the contentType of the encapsulated content (from API 24) and a messageDigest equal
     to the digest of the .SF. -/
-theorem reported_cert_verifies (cr : Crypto) (inp : Input) (c : Cert)
+theorem reported_cert_verifies_model (cr : Crypto) (inp : Input) (c : Cert)
     (h : getCert cr inp = .cert c) :
     ∃ si ∈ triedList inp, si ∈ inp.signers ∧ findCert inp.certs si = some c ∧ Verifies cr inp si c := by
   unfold getCert at h
@@ -82,17 +89,17 @@ theorem reported_cert_verifies (cr : Crypto) (inp : Input) (c : Cert)
 theorem reported_cert_is_referenced (cr : Crypto) (inp : Input) (c : Cert)
     (h : getCert cr inp = .cert c) :
     c ∈ inp.certs ∧ c.isCert = true ∧ ∃ si ∈ inp.signers, c.issuer = si.issuer ∧ c.serial = si.serial := by
-  obtain ⟨si, _, hsi, hf, _⟩ := reported_cert_verifies cr inp c h
+  obtain ⟨si, _, hsi, hf, _⟩ := reported_cert_verifies_model cr inp c h
   unfold findCert at hf
   have hm := List.mem_of_find?_eq_some hf
   have hp := List.find?_some hf
   simp only [Bool.and_eq_true, beq_iff_eq] at hp
   exact ⟨hm, hp.1.1, si, hsi, hp.1.2, hp.2⟩
 
-/-- **first_verified_wins.**  `c` is reported exactly when the tried SignerInfos split as
+/-- (model-side form of first_verified_wins)  `c` is reported exactly when the tried SignerInfos split as
     `pre ++ si :: post` where every one in `pre` fails to verify (quietly), `si` verifies with `c`, and nothing
     in `post` raises. -/
-theorem first_verified_wins (cr : Crypto) (inp : Input) (c : Cert) (l : List SignerInfo)
+theorem first_verified_wins_model (cr : Crypto) (inp : Input) (c : Cert) (l : List SignerInfo)
     (hne : inp.signers ≠ []) (ht : tried inp = some l) :
     getCert cr inp = .cert c ↔
       ∃ pre si post, l = pre ++ si :: post ∧ (∀ s ∈ pre, verifySI cr inp s = .notVerified) ∧
@@ -101,6 +108,49 @@ theorem first_verified_wins (cr : Crypto) (inp : Input) (c : Cert) (l : List Sig
   cases hs : inp.signers with
   | nil => exact absurd hs hne
   | cons s rest => simp only [ht]; exact loop_nil_cert_iff l c
+
+/-! ## the same, against the independent specification (Spec/V1Sig.lean) -/
+
+/-- **reported_cert_verifies.**  If get_certificate_der reports `c`, then for one of the SignerInfos it tried the sid
+    selects `c` (first certificate of the set with that issuer and serial) and `c`'s key verifies the signature
+    file in the sense of the specification `Spec.V1Sig.Verifies`: a supported digest; without signed attributes
+    the signature is over the .SF; with them it is over their SET OF-retagged DER, they are duplicate-free, carry
+    the eContentType (from API 24) and a messageDigest equal to the digest of the .SF. -/
+theorem reported_cert_verifies (cr : Crypto) (inp : Input) (c : Cert)
+    (h : getCert cr inp = .cert c) :
+    ∃ si ∈ triedList inp, si ∈ inp.signers ∧ SpecSelects inp si c ∧ SpecVerifies cr inp si c := by
+  obtain ⟨si, h1, h2, hf, hv⟩ := reported_cert_verifies_model cr inp c h
+  exact ⟨si, h1, h2, (findCert_iff_spec inp si c).mp hf, (verifies_iff_spec cr inp si c).mp hv⟩
+
+/-- **first_verified_wins.**  `c` is reported exactly when the tried SignerInfos split as `pre ++ si :: post` where
+    every one in `pre` fails quietly, `si`'s sid selects `c` and `c` verifies `si` (specification), and nothing in
+    `post` raises. -/
+theorem first_verified_wins (cr : Crypto) (inp : Input) (c : Cert) (l : List SignerInfo)
+    (hne : inp.signers ≠ []) (ht : tried inp = some l) :
+    getCert cr inp = .cert c ↔
+      ∃ pre si post, l = pre ++ si :: post ∧ (∀ s ∈ pre, verifySI cr inp s = .notVerified) ∧
+        SpecSelects inp si c ∧ SpecVerifies cr inp si c ∧ NoRaise cr inp post := by
+  rw [first_verified_wins_model cr inp c l hne ht]
+  constructor
+  · rintro ⟨pre, si, post, hl, hp, hv, hn⟩
+    obtain ⟨h1, h2⟩ := (verifySI_verified_iff_spec cr inp si c).mp hv
+    exact ⟨pre, si, post, hl, hp, h1, h2, hn⟩
+  · rintro ⟨pre, si, post, hl, hp, h1, h2, hn⟩
+    exact ⟨pre, si, post, hl, hp, (verifySI_verified_iff_spec cr inp si c).mpr ⟨h1, h2⟩, hn⟩
+
+/-- one SignerInfo is accepted with `c` exactly when its sid selects `c` and `c` verifies it (specification):
+    soundness and completeness of verify_signer_info_against_sig_file -/
+theorem signer_verified_iff_spec (cr : Crypto) (inp : Input) (si : SignerInfo) (c : Cert) :
+    verifySI cr inp si = .verified c ↔ SpecSelects inp si c ∧ SpecVerifies cr inp si c :=
+  verifySI_verified_iff_spec cr inp si c
+
+/-- If no SignerInfo/certificate pair of the file passes the specification's verification, nothing is reported. -/
+theorem no_valid_pair_none (cr : Crypto) (inp : Input)
+    (h : ∀ si ∈ inp.signers, ∀ c, SpecSelects inp si c → ¬ SpecVerifies cr inp si c) (c : Cert) :
+    getCert cr inp ≠ .cert c := by
+  intro hc
+  obtain ⟨si, _, hsi, hf, hv⟩ := reported_cert_verifies cr inp c hc
+  exact h si hsi c hf hv
 
 /-! ## signer selection -/
 
@@ -218,11 +268,11 @@ theorem malformed_signer_raises (cr : Crypto) (inp : Input) (si : SignerInfo) :
 /-! ## tampering (cryptographic assumptions are hypotheses) -/
 
 /-- If no SignerInfo/certificate pair of the file passes the v1 verification, nothing is reported. -/
-theorem no_valid_pair_none (cr : Crypto) (inp : Input)
+theorem no_valid_pair_none_model (cr : Crypto) (inp : Input)
     (h : ∀ si ∈ inp.signers, ∀ c, findCert inp.certs si = some c → ¬ Verifies cr inp si c) (c : Cert) :
     getCert cr inp ≠ .cert c := by
   intro hc
-  obtain ⟨si, _, hsi, hf, hv⟩ := reported_cert_verifies cr inp c hc
+  obtain ⟨si, _, hsi, hf, hv⟩ := reported_cert_verifies_model cr inp c hc
   exact h si hsi c hf hv
 
 /-- **tamper_none (.SF).**  Replace the .SF bytes by `sf'`.  ASSUMPTIONS (hypotheses, not axioms):
@@ -234,7 +284,7 @@ theorem tamper_none (cr : Crypto) (inp : Input) (sf' : Bytes)
     (hdig : ∀ si ∈ inp.signers, ∀ a ∈ attrsOf si, ∀ fn, a.values.head? ≠ some (.oct (cr.digest fn sf')))
     (c : Cert) :
     getCert cr { inp with sf := sf' } ≠ .cert c := by
-  apply no_valid_pair_none
+  apply no_valid_pair_none_model
   intro si hsi c0 hf hv
   obtain ⟨fn, cls, _, hcase⟩ := hv
   rcases hcase with ⟨_, hok⟩ | ⟨_, _, _, ⟨a, ha, _, hval⟩, _⟩
@@ -248,13 +298,26 @@ theorem tamper_none (cr : Crypto) (inp : Input) (sf' : Bytes)
 theorem tamper_sig_none (cr : Crypto) (inp : Input)
     (hbad : ∀ si ∈ inp.signers, ∀ c ∈ inp.certs, ∀ msg cls, cr.verify c.key si.sig msg cls ≠ .ok) (c : Cert) :
     getCert cr inp ≠ .cert c := by
-  apply no_valid_pair_none
+  apply no_valid_pair_none_model
   intro si hsi c0 hf hv
   have hm : c0 ∈ inp.certs := List.mem_of_find?_eq_some hf
   obtain ⟨fn, cls, _, hcase⟩ := hv
   rcases hcase with ⟨_, hok⟩ | ⟨_, _, _, _, hok⟩
   · exact hbad si hsi c0 hm _ cls hok
   · exact hbad si hsi c0 hm _ cls hok
+
+/-- **tamper_none (signature value), below API 24.**  There only the FIRST SignerInfo counts: if its signature
+    verifies nothing under the keys of the certificate set (ASSUMPTION as above), no certificate is reported,
+    whatever the other SignerInfos contain. -/
+theorem pre_N_first_sig_bad_none (cr : Crypto) (inp : Input) (s : SignerInfo) (rest : List SignerInfo)
+    (hpre : inp.minSdk = .absent ∨ ∃ n, inp.minSdk = .num n ∧ n < 24) (hs : inp.signers = s :: rest)
+    (hbad : ∀ c ∈ inp.certs, ∀ msg cls, cr.verify c.key s.sig msg cls ≠ .ok) (c : Cert) :
+    getCert cr inp ≠ .cert c := by
+  rw [pre_N_only_first cr inp hpre]
+  apply tamper_sig_none
+  intro si hsi
+  simp only [hs, List.take_succ_cons, List.take_zero, List.mem_singleton] at hsi
+  rw [hsi]; exact hbad
 
 /-- **tamper_none (signed attributes).**  If the signed attributes of every SignerInfo are altered so that the
     signature no longer verifies their re-tagged encoding (ASSUMPTION: unforgeability for the altered bytes)
@@ -264,7 +327,7 @@ theorem tamper_attrs_none (cr : Crypto) (inp : Input)
     (hunf : ∀ si ∈ inp.signers, ∀ c ∈ inp.certs, ∀ cls, cr.verify c.key si.sig (retag si.attrsDump) cls ≠ .ok)
     (c : Cert) :
     getCert cr inp ≠ .cert c := by
-  apply no_valid_pair_none
+  apply no_valid_pair_none_model
   intro si hsi c0 hf hv
   have hm : c0 ∈ inp.certs := List.mem_of_find?_eq_some hf
   obtain ⟨fn, cls, _, hcase⟩ := hv
@@ -321,14 +384,12 @@ theorem quiet_failures_none (cr : Crypto) (inp : Input) (l : List SignerInfo)
 theorem sigalg_ignored (cr : Crypto) (inp : Input) (si : SignerInfo) (x : String) :
     verifySI cr inp { si with sigAlg := x } = verifySI cr inp si := rfl
 
-/-- Completeness for the common case: one SignerInfo, its sid selects `c`, `c` verifies, minSdkVersion decodable
-    → exactly `c` is reported. -/
+/-- Completeness for the common case: one SignerInfo, its sid selects `c`, `c` verifies it (specification),
+    minSdkVersion decodable → exactly `c` is reported. -/
 theorem valid_single_reported (cr : Crypto) (inp : Input) (si : SignerInfo) (c : Cert)
-    (hs : inp.signers = [si]) (hmin : inp.minSdk ≠ .bad) (hmax : inp.maxSdk = none)
-    (hf : findCert inp.certs si = some c) (hv : Verifies cr inp si c) :
+    (hs : inp.signers = [si]) (hmin : inp.minSdk ≠ .bad)
+    (hf : SpecSelects inp si c) (hv : SpecVerifies cr inp si c) :
     getCert cr inp = .cert c := by
-  have hver : verifySI cr inp si = .verified c :=
-    verifySI_of_verifies hf hv (by rw [hmax]; rfl)
   have htried : tried inp = some [si] := by
     unfold tried
     cases hm : inp.minSdk with
@@ -336,7 +397,7 @@ theorem valid_single_reported (cr : Crypto) (inp : Input) (si : SignerInfo) (c :
     | num n => simp only [selTest, hs]; split <;> simp
     | bad => exact absurd hm hmin
   exact (first_verified_wins cr inp c [si] (by simp [hs]) htried).mpr
-    ⟨[], si, [], rfl, by simp, hver, fun _ hx => by simp at hx⟩
+    ⟨[], si, [], rfl, by simp, hf, hv, fun _ hx => by simp at hx⟩
 
 /-! ## signature block names and get_certificates_v1 -/
 
@@ -445,9 +506,22 @@ example : getCert exCrypto { exInput with sf := [10, 12] } = .none := by decide
 example : getCert exCrypto { exInput with signers := [{ exSI with serial := 78 }] } = .none := by decide
 /-- an undecodable minSdkVersion raises -/
 example : getCert exCrypto { exInput with minSdk := .bad } = .raised valueError := by decide
-/-- the hypotheses of valid_single_reported are satisfiable -/
-example : Verifies exCrypto exInput exSI exCert :=
-  ⟨"sha256", "SHA256", by decide, Or.inl ⟨by decide, by decide⟩⟩
+/-- the hypotheses of valid_single_reported are satisfiable: the specification holds of a concrete object,
+    without signed attributes … -/
+example : SpecSelects exInput exSI exCert ∧ SpecVerifies exCrypto exInput exSI exCert :=
+  ⟨⟨[exDecoy], [], rfl, by decide, by decide, by decide, by decide⟩,
+   ⟨"sha256", "SHA256", by decide, Or.inl ⟨by decide, by decide⟩⟩⟩
+/-- … and with signed attributes (contentType = data, messageDigest = digest of the .SF, signature over 0x31 ‖ tail) -/
+example : SpecVerifies exCrypto exInput exAttrSI exCert :=
+  ⟨"sha1", "SHA1", by decide, Or.inr ⟨by decide, by decide,
+    fun _ => ⟨_, List.mem_cons_self, by decide, by decide⟩,
+    ⟨_, List.mem_cons_of_mem _ List.mem_cons_self, by decide, by decide⟩, by decide⟩⟩
+/-- the specification rejects the altered .SF of the tamper example -/
+example : ¬ SpecVerifies exCrypto { exInput with sf := [10, 12] } exSI exCert := by
+  rintro ⟨fn, cls, _, h⟩
+  rcases h with ⟨_, hok⟩ | ⟨hne, _⟩
+  · revert hok; simp [exCrypto, exCert, exSI]
+  · exact hne (by decide)
 /-- the block of defect D23: its matching .SF is META-INF/.SF for both functions -/
 example : sfNameDer "META-INF/.RSA" = "META-INF/.SF" ∧ sfNameNames "META-INF/.RSA" = "META-INF/.SF" := by decide
 /-- signature block names -/
